@@ -217,7 +217,7 @@ def gen_cases(rng, tier):
                             facets = list(range(nf))
                             ncomp = dim[1] - dim[0]
                             f = [_rand_poly(rng, D, 2, 3).to_json() for _ in range(ncomp)]
-                            const_f = rng.random() < 0.25
+                            const_f = rng.choice([True, "arr"]) if rng.random() < 0.3 else False
                             cases.append({"family": "boundary", **_base(rng, time, D, 2, M, 2, B), "bkind": bkind,
                                           "dx": dx, "facets": facets, "dim": dim, "f": f, "f_float": const_f})
     # ---- scalar terms: initial condition, normalisation, one-facet boundary mean (grid sizes powers of two) ----
@@ -577,7 +577,9 @@ def run_impl(case):
                 batch_s = PDEStatioBatch(inside_batch=X, border_batch=bb)
                 batch_p = PDEStatioBatch(inside_batch=PTS, border_batch=bp)
             if fam == "boundary":
-                if case.get("f_float"):
+                if case.get("f_float") == "arr":     # a constant returned as a 0-d array
+                    f = (lambda t, x: jnp.asarray(0.0)) if time else (lambda x: jnp.asarray(0.0))
+                elif case.get("f_float"):
                     f = (lambda t, x: 0.0) if time else (lambda x: 0.0)
                 else:
                     f = _polyfun(case["f"], D, time)
